@@ -24,6 +24,7 @@ from league import (
 )
 from oracles import (
     check_sigma,
+    id_mode,
     diff_state,
     mk_rating,
     model_state,
@@ -256,6 +257,7 @@ def calls_params(rng, prop):
         "faults_on": sorted(rng.sample(["malformed", "crash", "restart"], rng.randint(0, 3))),
         "maker": rng.choice(["random", "closest", "farthest"]),
         "rule": rng.choice(["uniform", "skill", "upset", "tie"]),
+        "pristine_refs": rng.random() < 0.06,
     }
 
 
@@ -265,10 +267,22 @@ class CallsDriver:
     def __init__(self, ctx):
         self.ctx = ctx
         self.league = League(ctx.cfg)
+        self.pristine = bool(ctx.params.get("pristine_refs"))
         self.prev = "none"  # kind of the previous call on the model
         self.n_calls = 0
         self.pop_done = False
         self.pending = []
+
+    def lib(self):
+        """Pristine-reference mode: every reference execution runs in its own fresh import of
+        the library, so that state a call leaves in a module, class, function default or cache
+        cannot be shared by the call under test and its reference."""
+        if not self.pristine:
+            return None
+        self.ctx.count("pristine_reference_imports")
+        import core
+
+        return core.fresh_models()
 
     # ---- generation
     def gen(self):
@@ -359,18 +373,11 @@ class CallsDriver:
     # ---- execution
     def run(self):
         ctx = self.ctx
-        mod0 = module_state() if ctx.prop == "C14" else None
         while True:
             op = ctx.next_op(self.gen)
             if op is None:
                 break
             self.exec(op)
-        if ctx.prop == "C14":
-            mod1 = module_state()
-            d = diff_state(mod0, mod1)
-            ctx.evaluations += 1
-            if d:
-                ctx.violation("C14/module_state_changed:%s" % ",".join(d[:3]), {"names": d})
 
     def exec(self, op):
         ctx = self.ctx
@@ -429,13 +436,16 @@ class CallsDriver:
         op = rec["op"]
         out = rec["out"]
         if ctx.prop == "C14":
+            ids = id_mode(rec["snap"])
+            lib = self.lib()
             if op["op"] == "RATE":
-                ref = ref_rate(ctx.cfg, rec["snap"], rate_kwargs(op), "iso%d" % ctx.i, stats=ctx.stats)
+                ref = ref_rate(ctx.cfg, rec["snap"], rate_kwargs(op), "iso%d" % ctx.i, stats=ctx.stats, lib=lib, ids=ids)
             else:
-                ref = ref_predict(ctx.cfg, rec["snap"], op["kind"], "iso%d" % ctx.i, stats=ctx.stats)
+                ref = ref_predict(ctx.cfg, rec["snap"], op["kind"], "iso%d" % ctx.i, stats=ctx.stats, lib=lib, ids=ids)
             ctx.evaluations += 1
+            ctx.count("iso_ids:%s" % (ids or "fresh"))
             if ref != out:
-                ctx.violation("C14/result_differs_from_isolated:%s" % hist, {"op": op, "snap": rec["snap"], "got": out, "isolated": ref})
+                ctx.violation("C14/result_differs_from_isolated:%s" % hist, {"op": op, "snap": rec["snap"], "got": out, "isolated": ref, "isolated_ids": ids or "fresh", "pristine_library_copy": lib is not None})
             if nontrivial:
                 ctx.nontrivial.add(h64([ctx.cfg["model"], rec["snap"], op.get("ranks"), op.get("scores"), op.get("tau"), op.get("limit_sigma"), op.get("kind"), hist]))
         elif ctx.prop == "C15":
@@ -444,7 +454,7 @@ class CallsDriver:
             kw = rate_kwargs(op)
             t = kw.pop("tau", None)
             b = kw.pop("limit_sigma", None)
-            ref = ref_rate(ctx.cfg, rec["snap"], kw, "cfg%d" % ctx.i, tau=t, limit_sigma=b, stats=ctx.stats)
+            ref = ref_rate(ctx.cfg, rec["snap"], kw, "cfg%d" % ctx.i, tau=t, limit_sigma=b, stats=ctx.stats, lib=self.lib())
             ctx.evaluations += 1
             if ref != out:
                 cls = self.classify_c15(rec, kw, t, b, out)
@@ -1115,6 +1125,11 @@ class StoreDriver:
                 self.restored.add(n)
                 self.ever_restored.add(n)
             ctx.log("CRASH", list(lc.fired_loc))
+            # the process died with the call: its model object is gone too.  Both twins get a
+            # fresh model, so that they keep differing only in their rating objects (what a
+            # killed call does to a model that lives on is C14's business, not C20's)
+            self.A.model = build_model(ctx.cfg)
+            self.B.model = build_model(ctx.cfg)
         else:
             # the call completed before the crash point: B's objects now hold the posterior
             # but nothing was committed; restore from the store all the same
